@@ -158,6 +158,29 @@ func (cr *c05cRun) call(yaml bool, doc map[string]any, note string) (c05cOut, st
 	return out, d
 }
 
+func c05cHasOptEmbedded(f *g.Field) bool {
+	if f.Anonymous && f.O.Optional {
+		return true
+	}
+	var walk func(t *g.Type) bool
+	walk = func(t *g.Type) bool {
+		switch t.K {
+		case g.Ptr, g.Slice, g.Map:
+			return walk(t.Elem)
+		case g.Struct:
+			for _, sf := range t.Fields {
+				if c05cHasOptEmbedded(sf) {
+					return true
+				}
+			}
+		}
+		return false
+	}
+	return walk(f.T)
+}
+
+const c05cEmbSig = "C05:conf:optional-embedded-field-not-fed"
+
 // c05cBlame re-loads a rejected valid document field by field to name the field class.
 func c05cBlame(c *g.Case, doc map[string]any) string {
 	for _, f := range c.Shape.Root.Fields {
@@ -174,6 +197,9 @@ func c05cBlame(c *g.Case, doc map[string]any) string {
 			d[f.DocKey()] = v
 		}
 		if out := c05cLoad(false, sub, g.JSON(d)); out.err != nil || out.pv != nil {
+			if c05cHasOptEmbedded(f) {
+				return "embedded+optional"
+			}
 			return f.FieldSig()
 		}
 	}
@@ -199,7 +225,7 @@ func (cr *c05cRun) judge(c *g.Case, doc map[string]any, out c05cOut, d, class st
 		if class == "valid" {
 			sig := "C05:conf:valid-rejected:" + c05cBlame(c, doc)
 			if strings.Contains(sig, "embedded+optional") {
-				sig = "C05:conf:optional-embedded-field-not-fed"
+				sig = c05cEmbSig
 			}
 			m.Violate(sig, d, "a document that satisfies every declared constraint was rejected: %v", out.err)
 			return true
@@ -220,7 +246,16 @@ func (cr *c05cRun) judge(c *g.Case, doc map[string]any, out c05cOut, d, class st
 	switch class {
 	case "valid":
 		if !g.Equal(out.res.Elem(), c.Expect.Elem()) {
-			m.Violate("C05:mismatch:valid-doc", d, "result differs from the struct the generator built the document from\n got: %s\nwant: %s", g.Show(out.res), g.Show(c.Expect))
+			sig := "C05:mismatch:valid-doc"
+			for i, f := range c.Shape.Root.Fields {
+				if !g.Equal(out.res.Elem().Field(i), c.Expect.Elem().Field(i)) {
+					if c05cHasOptEmbedded(f) {
+						sig = c05cEmbSig
+					}
+					break
+				}
+			}
+			m.Violate(sig, d, "result differs from the struct the generator built the document from\n got: %s\nwant: %s", g.Show(out.res), g.Show(c.Expect))
 			return true
 		}
 		m.Count("valid.accepted-exact", 1)
